@@ -36,13 +36,26 @@ Hub == SObj(
 HubVar == SOneOf(<< ExtVar("A", RefT), ExtVar("B", SInt), ExtVar("N", SNum) >>)
 Other == SObj(Props3("s", SStr, "n", SInt, "m", SMap(SStr)), {"s"})
 Col == EnumS(<<JS(<<"r">>), JS(<<"g">>)>>)
+(* patch targets of every kind of named type: struct (Tgt), string enum (Col), constrained string,
+   typed non-string enum, deny list, alias wrapper *)
+Code == [type |-> "string", minLength |-> 1]
+Lvl == [type |-> "integer", enum |-> <<JInt(1), JInt(2), JInt(3)>>]
+NotAb == [type |-> "string", not |-> [enum |-> <<JS(<<"a">>), JS(<<"b">>)>>]]
+Labels == SArr(SStr)
+Holder == SObj(Props3("code", SRef("Code"), "lvl", SRef("Lvl"), "notab", SRef("NotAb")) @@ Props1("labels", SRef("Labels")), {"code"})
 Defs == ("Tgt" :> Tgt) @@ ("Hub" :> Hub) @@ ("HubVar" :> HubVar) @@ ("Other" :> Other) @@ ("Col" :> Col)
+        @@ ("Code" :> Code) @@ ("Lvl" :> Lvl) @@ ("NotAb" :> NotAb) @@ ("Labels" :> Labels) @@ ("Holder" :> Holder)
 
 Settings ==
     [builder |-> s.builder, map |-> s.map]
     @@ (IF s.derive THEN [derives |-> <<"PartialEq">>] ELSE << >>)
     @@ (IF s.replace THEN [replace |-> [Tgt |-> [ty |-> "crate::support::ReplT", impls |-> << >>]]] ELSE << >>)
-    @@ (IF s.patch THEN [patch |-> [Tgt |-> [rename |-> "Renamed", derives |-> <<"Eq", "PartialEq">>]]] ELSE << >>)
+    @@ (IF s.patch THEN [patch |-> [Tgt |-> [rename |-> "Renamed", derives |-> <<"Eq", "PartialEq">>],
+                                    Code |-> [rename |-> "CodeR", derives |-> <<"Default">>],
+                                    Lvl |-> [rename |-> "", derives |-> <<"Default">>],
+                                    NotAb |-> [rename |-> "", derives |-> <<"Default">>],
+                                    Labels |-> [rename |-> "LabelsR", derives |-> <<"Default">>],
+                                    Col |-> [rename |-> "ColR", derives |-> << >>]]] ELSE << >>)
     @@ (IF s.convert # "none"
         THEN [convert |-> << [schema |-> IF s.convert = "bare" THEN SNum ELSE With(SNum, "description", "a number"),
                               ty |-> "crate::support::Num", impls |-> <<"Display">>] >>] ELSE << >>)
